@@ -49,7 +49,7 @@ Lemma timeout_deadline_visible : forall d w,
   /\ v_settle (view (w_msg (with_deadline d w))) = v_settle (view (w_msg w)).
 Proof.
   intros d w. unfold with_deadline, view, ctx_done. simpl. repeat split.
-  destruct (min_deadline (m_ctx (w_msg w))) as [x|]; eexists; split; eauto; lia.
+  destruct (m_base_dl (w_msg w)) as [b|], (min_deadline (m_ctx (w_msg w))) as [x|]; simpl; eexists; split; eauto; lia.
 Qed.
 
 Lemma set_corr_others : forall id mt k, k <> K_CORR -> mget k (set_corr id mt) = mget k mt.
